@@ -687,6 +687,16 @@ fn keyid_case<B: Backend>(cx: &mut Ctx, rng: &mut Prng, pairs: &[keys::Pair]) {
         "public" => pairs.iter().map(|p| (p.public.clone(), false)).filter(|k| k.0.len() == klen).collect(),
         _ => pairs.iter().map(|p| (p.secret.clone(), false)).filter(|k| k.0.len() == klen).collect(),
     };
+    if B::VER == 1 && kind != "local" {
+        // RSA keys exactly as an outside tool wrote them (DER from the fixture files, not bytes the library re-encoded itself): a
+        // canonical DER key is kept as given (C08), so its text and id are those of the bytes given
+        for i in 0..2 {
+            let f = format!("{}/fixtures/rsa2048-{}.{}.pem", env!("CARGO_MANIFEST_DIR"), i, if kind == "public" { "pub" } else { "sec" });
+            if let Some(der) = std::fs::read(&f).ok().and_then(|pem| crate::obs_keys::pem_body(&pem)).filter(|d| d.len() == klen) {
+                cands.push((der, false));
+            }
+        }
+    }
     if kind == "public" && (B::VER == 2 || B::VER == 4) {
         // non-reduced encodings of curve points (y >= p): a backend may refuse them, but one that accepts them keeps the
         // bytes it was given (C08), so the id is the digest of the text it was given - on both backends of the version
